@@ -56,7 +56,8 @@ void report(const char *kind, const std::string &msg);  // record an oracle hit 
 // yields inside (it is waiting), the scope is broken: returns false at leave.
 void nopreempt_enter();
 bool nopreempt_leave();
-void harness_point();  // explicit scheduling point in interpreter code
+void harness_point();  // explicit scheduling point in interpreter code (does not count as a waiting step)
+void harness_yield();  // interpreter-level yield: let every other runnable thread go first (not a waiting step)
 void preempt_now(int target);  // forced switch (op-level preemption), no-op if nobody else can run
 
 // write-watch: the interpreter registers [lo,hi) ranges; when the current
